@@ -4,7 +4,6 @@ package main
 
 import (
 	"fmt"
-	"go/ast"
 	"go/token"
 	"go/types"
 	"strings"
@@ -281,98 +280,175 @@ func returnsSettings(f *ssa.Function, sm *settingsModelT) bool {
 }
 
 // ruleRankComparator (I-RANK): the ranking comparator orders by score descending, then by use count descending.
+// Decided on SSA: the function value handed to the sort of a scored-item slice is resolved (literal, named
+// function, bound method), helpers it returns the result of are followed, and every ordering comparison it can
+// return must put the first element's key on the larger side.
 func ruleRankComparator(c *Ctx) {
-	pk := c.P.ByRel["internal/server"]
-	info := pk.TypesInfo
+	spk := c.P.SSAPkg("internal/server")
 	n := 0
-	for _, f := range pk.Syntax {
-		for _, d := range f.Decls {
-			fd, ok := d.(*ast.FuncDecl)
-			if !ok || fd.Body == nil || fd.Type.Params == nil || len(fd.Type.Params.List) == 0 {
-				continue
-			}
-			if t := info.TypeOf(fd.Type.Params.List[0].Type); t == nil || !isScoredSlice(t) {
-				continue
-			}
-			ast.Inspect(fd.Body, func(x ast.Node) bool {
-				call, ok := x.(*ast.CallExpr)
+	for _, f := range c.P.ModuleFuncs() {
+		top := f
+		for top.Parent() != nil {
+			top = top.Parent()
+		}
+		if top.Pkg != spk {
+			continue
+		}
+		for _, b := range f.Blocks {
+			for _, ins := range b.Instrs {
+				call, ok := ins.(*ssa.Call)
 				if !ok {
-					return true
+					continue
 				}
-				q := qualName(calleeOf(info, call))
-				if q != "sort.Slice" && q != "sort.SliceStable" || len(call.Args) != 2 {
-					return true
+				cal := call.Call.StaticCallee()
+				if cal == nil || len(call.Call.Args) != 2 {
+					continue
 				}
-				fl, ok := call.Args[1].(*ast.FuncLit)
-				if !ok || len(fl.Type.Params.List) == 0 {
-					return true
+				q := cal.String()
+				if o := cal.Origin(); o != nil {
+					q = o.String()
+				}
+				if q != "sort.Slice" && q != "sort.SliceStable" && q != "slices.SortFunc" && q != "slices.SortStableFunc" {
+					continue
+				}
+				arg0 := call.Call.Args[0]
+				if mi, ok := arg0.(*ssa.MakeInterface); ok {
+					arg0 = mi.X
+				}
+				if !isScoredSlice(arg0.Type()) {
+					continue
 				}
 				n++
-				var iName, jName string
-				var names []string
-				for _, p := range fl.Type.Params.List {
-					for _, nm := range p.Names {
-						names = append(names, nm.Name)
-					}
+				cmpFn := resolveFuncValue2(call.Call.Args[1])
+				if cmpFn == nil || len(cmpFn.Params) < 2 {
+					c.undecided("I-RANK", funcName(f), "ranking comparator is (score desc, count desc)", call.Pos(), "the comparator handed to the sort could not be resolved to a function")
+					continue
 				}
-				if len(names) == 2 {
-					iName, jName = names[0], names[1]
-				}
-				fname := c.P.declName(fd)
-				// every `return a OP b` comparing an i-derived with a j-derived value must be `>` (descending)
-				derived := map[string]string{} // local var -> "i"/"j"
-				ast.Inspect(fl.Body, func(y ast.Node) bool {
-					if as, ok := y.(*ast.AssignStmt); ok && len(as.Lhs) == 1 && len(as.Rhs) == 1 {
-						r := fullStr(c.P.Fset, as.Rhs[0])
-						if strings.Contains(r, "["+iName+"]") {
-							derived[identOf(as.Lhs[0]).Name] = "i"
-						}
-						if strings.Contains(r, "["+jName+"]") {
-							derived[identOf(as.Lhs[0]).Name] = "j"
-						}
-					}
-					return true
-				})
-				side := func(e ast.Expr) string {
-					s := fullStr(c.P.Fset, e)
-					if strings.Contains(s, "["+iName+"]") {
+				pi, pj := cmpFn.Params[len(cmpFn.Params)-2], cmpFn.Params[len(cmpFn.Params)-1]
+				nCmp, bad := 0, ""
+				side := func(v ssa.Value) string {
+					sl := backSlice(v)
+					hi, hj := sl[pi], sl[pj]
+					switch {
+					case hi && !hj:
 						return "i"
-					}
-					if strings.Contains(s, "["+jName+"]") {
+					case hj && !hi:
 						return "j"
 					}
-					return derived[identOf(e).Name]
+					return ""
 				}
-				nCmp := 0
-				bad := ""
-				ast.Inspect(fl.Body, func(y ast.Node) bool {
-					r, ok := y.(*ast.ReturnStmt)
-					if !ok || len(r.Results) != 1 {
-						return true
+				var judge func(v ssa.Value, stack []*ssa.Call, depth int)
+				judge = func(v ssa.Value, stack []*ssa.Call, depth int) {
+					switch x := v.(type) {
+					case *ssa.BinOp:
+						if x.Op != token.GTR && x.Op != token.LSS && x.Op != token.GEQ && x.Op != token.LEQ {
+							return
+						}
+						l, r := sideIn(x.X, stack, pi, pj), sideIn(x.Y, stack, pi, pj)
+						if l == "" || r == "" || l == r {
+							return
+						}
+						nCmp++
+						desc := (x.Op == token.GTR && l == "i") || (x.Op == token.LSS && l == "j")
+						if !desc {
+							bad = c.P.pos(x.Pos())
+						}
+					case *ssa.Phi:
+						for _, e := range x.Edges {
+							judge(e, stack, depth)
+						}
+					case *ssa.Call:
+						cal := x.Call.StaticCallee()
+						if cal == nil && !x.Call.IsInvoke() {
+							cal = resolveLocalFunc(x.Call.Value)
+						}
+						if cal == nil || depth > 3 {
+							return
+						}
+						if cq := cal.String(); cq == "cmp.Compare" || cq == "strings.Compare" || (cal.Origin() != nil && cal.Origin().String() == "cmp.Compare") {
+							if len(x.Call.Args) == 2 {
+								l, r := sideIn(x.Call.Args[0], stack, pi, pj), sideIn(x.Call.Args[1], stack, pi, pj)
+								if l != "" && r != "" && l != r {
+									nCmp++
+									if l != "j" {
+										bad = c.P.pos(x.Pos())
+									}
+								}
+							}
+							return
+						}
+						if cal.Blocks == nil || !inModule(cal) {
+							return
+						}
+						for _, b2 := range cal.Blocks {
+							for _, i2 := range b2.Instrs {
+								if r, ok := i2.(*ssa.Return); ok && len(r.Results) == 1 {
+									judge(unspillResult(r.Results[0], b2), append(append([]*ssa.Call{}, stack...), x), depth+1)
+								}
+							}
+						}
 					}
-					be, ok := ast.Unparen(r.Results[0]).(*ast.BinaryExpr)
-					if !ok {
-						return true
+				}
+				_ = side
+				for _, b2 := range cmpFn.Blocks {
+					for _, i2 := range b2.Instrs {
+						if r, ok := i2.(*ssa.Return); ok && len(r.Results) == 1 {
+							judge(unspillResult(r.Results[0], b2), nil, 0)
+						}
 					}
-					l, rr := side(be.X), side(be.Y)
-					if l == "" || rr == "" || l == rr {
-						return true
-					}
-					nCmp++
-					desc := (be.Op == token.GTR && l == "i") || (be.Op == token.LSS && l == "j")
-					if !desc {
-						bad = fullStr(c.P.Fset, be)
-					}
-					return true
-				})
-				c.check(bad == "" && nCmp >= 2, "I-RANK", fname, "ranking comparator is (score desc, count desc)", call.Pos(),
+				}
+				c.check(bad == "" && nCmp >= 2, "I-RANK", funcName(f), "ranking comparator is (score desc, count desc)", call.Pos(),
 					fmt.Sprintf("%d comparisons, all descending: better matches and more frequently used names come first", nCmp),
-					"the ranking comparator is not descending in both keys ("+bad+"): less frequently used or worse matching names are listed first")
-				return true
-			})
+					fmt.Sprintf("the ranking comparator is not descending in both keys (%d ordering comparisons found; ascending: %s): less frequently used or worse matching names are listed first", nCmp, bad))
+			}
 		}
 	}
 	c.census("I-RANK", "ranking comparators", n, 1)
+}
+
+// sideIn: which of the comparator's two element parameters the value derives from ("i", "j", "" for both/none);
+// the value may live in a helper entered through the calls on the stack (parameters are bound to the arguments).
+func sideIn(v ssa.Value, stack []*ssa.Call, pi, pj *ssa.Parameter) string {
+	sc := &sliceCtx{seen: map[ssa.Value]bool{}}
+	sc.visit(v, stack)
+	hi, hj := sc.seen[pi], sc.seen[pj]
+	switch {
+	case hi && !hj:
+		return "i"
+	case hj && !hi:
+		return "j"
+	}
+	return ""
+}
+
+// resolveFuncValue2: the function behind a function value: a function, a closure, or a bound method (the
+// synthetic wrapper is looked through).
+func resolveFuncValue2(v ssa.Value) *ssa.Function {
+	var fn *ssa.Function
+	switch x := v.(type) {
+	case *ssa.Function:
+		fn = x
+	case *ssa.MakeClosure:
+		fn, _ = x.Fn.(*ssa.Function)
+	case *ssa.ChangeType:
+		return resolveFuncValue2(x.X)
+	}
+	if fn == nil {
+		return nil
+	}
+	if fn.Synthetic != "" && fn.Blocks != nil {
+		// bound method wrapper: calls the method with the captured receiver
+		for _, b := range fn.Blocks {
+			for _, ins := range b.Instrs {
+				if call, ok := ins.(*ssa.Call); ok {
+					if cal := call.Call.StaticCallee(); cal != nil && cal.Blocks != nil {
+						return cal
+					}
+				}
+			}
+		}
+	}
+	return fn
 }
 
 // ruleEditRange (I-RANGE): the completion replace range ends at the request position and starts at a
@@ -496,4 +572,36 @@ func phiConds(phi *ssa.Phi) []ssa.Value {
 		}
 	}
 	return out
+}
+
+// resolveLocalFunc: the function stored in a local function variable (`f := func(...){...}; ... f(x)`), also when
+// the variable is captured by the closure that calls it.
+func resolveLocalFunc(v ssa.Value) *ssa.Function {
+	if fn := resolveFuncValue2(v); fn != nil {
+		return fn
+	}
+	ld, ok := v.(*ssa.UnOp)
+	if !ok || ld.Op != token.MUL {
+		return nil
+	}
+	cell := ld.X
+	if fv, ok := cell.(*ssa.FreeVar); ok {
+		cell = freeVarBinding(fv)
+	}
+	al, ok := cell.(*ssa.Alloc)
+	if !ok {
+		return nil
+	}
+	var found *ssa.Function
+	n := 0
+	for _, r := range *al.Referrers() {
+		if st, ok := r.(*ssa.Store); ok && st.Addr == al {
+			n++
+			found = resolveFuncValue2(st.Val)
+		}
+	}
+	if n == 1 {
+		return found
+	}
+	return nil
 }
